@@ -70,7 +70,7 @@ def oracle(c):
     w = c["wire"]
     overtook, failed = classify(c)
     # a gap of exactly the numbers used up by early failures is the known finding; anything else is not
-    gaps, budget = 0, early_failures(c)
+    gaps, budget = 0, 0   # since fix bf63793 a send that fails before its first chunk hands its number back
     prev = c["seq0"]
     for i in range(len(w)):
         if c.get("sign") and (w[i][3] or (i > 0 and w[i - 1][3])):
